@@ -29,7 +29,7 @@ ASSUMPTIONS = ['data sets consist of distinct points', 'ties between equidistant
                'python containers of centre indices may be updated in place; ndarray arguments may not']
 REACH_EXPECTED = ['pam_dst_dn', 'pam_dst_up_assig_other', 'pam_dst_up_assig_this', 'proposal_accepted',
                   'proposal_rejected', 'mpi_run', 'estimator_form', 'warm_start_state', 'cold_start_kmedoids',
-                  'after_every_sweep_checked', 'cinds_as_pairs', 'cinds_as_ndarray']
+                  'after_every_sweep_checked', 'cinds_as_pairs', 'cinds_as_ndarray', 'strided_input']
 
 
 def check(ctx, P, g, where, sut_exact=True):
@@ -66,10 +66,14 @@ def scenario(ctx):
     if form == 'estimator':
         ctx.hit('estimator_form')
 
+    layout = t.draw(4) if (not mpi and t.flag(1, 3)) else 0
+    if layout:
+        ctx.hit('strided_input')
+
     def run(sp, suffix=''):
         if mpi:
             return clrun.run_mpi(ctx, e, P, sp, poison=poison, suffix=suffix)
-        return clrun.run_serial(ctx, e, P, sp)
+        return clrun.run_serial(ctx, e, P, dict(sp, layout=layout))
 
     if case == 'kcenters':
         init = None
